@@ -237,6 +237,14 @@ CtEl(n, kids, tag, zoneRange) ==
   El(n, t, OpsOf(kids) \o <<New(n, "NewNXActionConnTrack", <<>>), Call(n, "Commit", <<>>), Call(n, "Table", <<t.RecircTable>>)>> \o zops
        \o <<Set(n, "Alg", t.Alg)>> \o [i \in DOMAIN kids |-> Call(n, "AddAction", <<Ref(kids[i].n)>>)])
 
+\* the zone is set twice, by the other setter first: the last call counts (immediate zone: zone_src 0; range: the field's header)
+CtZoneSeqEl(n, kids, tag, lastRange) ==
+  LET e == CtEl(n, kids, tag, lastRange)
+      zf2 == HdrField(Nm(n, 92), "NXM_NX_REG" \o ToString((tag + 3) % 16), FALSE)
+      first == IF lastRange THEN <<Call(n, "ZoneImm", <<V(tag + 9, 2)>>)>>
+               ELSE zf2.ops \o <<New(Nm(n, 93), "NewNXRange", <<2, 9>>), Call(n, "ZoneRange", <<Ref(zf2.n), Ref(Nm(n, 93))>>)>>
+      k == CHOOSE i \in DOMAIN e.ops : e.ops[i].op = "call" /\ e.ops[i].m = "Table" IN
+  El(n, e.tree, SubSeq(e.ops, 1, k) \o first \o SubSeq(e.ops, k + 1, Len(e.ops)))
 \* ---------------------------------------------------------------- instructions, buckets
 \* adds: sequence of <<element, prepend>>; the resulting order is the specification's meaning of append / prepend
 RECURSIVE OrderOf(_)
